@@ -180,6 +180,20 @@ func runC18Behaviour(ctx *Ctx) *Result {
 				res.Stats["post_migration_reconciles"]++
 			}
 		}
+		if r.Intn(3) == 0 {
+			// the controller's first reconciles after the migration are hit by faults / die mid-way
+			for k := 0; k < 3; k++ {
+				srv.ClearFaults()
+				srv.AddFault(&simapi.Fault{Nth: 1 + r.Intn(9), Kind: "500", Mode: []string{"before", "after", "crash-before", "crash-after"}[r.Intn(4)]})
+				w.DeliverAll()
+				rec := run.Reconcile(bw.Name)
+				if rec.Crash {
+					w.DeliverAll()
+				}
+			}
+			srv.ClearFaults()
+			res.Stats["migrations_with_faulted_first_reconciles"]++
+		}
 		if window {
 			for k := 0; k < 3; k++ {
 				w.DeliverAll()
@@ -243,5 +257,5 @@ func init() {
 		Assume: simAssumptions,
 		Cases:  func(t string) int { return nb(t) + scenarioCases(1600, 24000)(t) },
 		Run:    both(runC18Bytes, nb, runC18Behaviour),
-		Floors: []string{"byte_comparisons", "templates_with_containers", "migrations", "migrations_mid_rollout", "migrations_interrupted_once", "marker_revisions_checked", "post_migration_reconciles", "history_length_3", "migrations_with_gc_window"}})
+		Floors: []string{"byte_comparisons", "templates_with_containers", "migrations", "migrations_mid_rollout", "migrations_interrupted_once", "marker_revisions_checked", "post_migration_reconciles", "history_length_3", "migrations_with_gc_window", "migrations_with_faulted_first_reconciles"}})
 }
